@@ -96,6 +96,7 @@ type interpreter struct {
 	onceDone           map[*value]bool
 	stack              []*ssa.Function
 	inHarness          bool
+	ltPoison           bool
 	regexps            map[*value]*regexp.Regexp
 }
 
